@@ -165,6 +165,9 @@ func hostVariants() []hostVariant {
 		{name: "[::]", authority: "[::]", localhost: true},
 		{name: "[::ffff:127.0.0.1]", authority: "[::ffff:127.0.0.1]", localhost: true},
 		{name: "localhost-trailing-dot", authority: "localhost.", localhost: true},
+		// (round 9, pointed out by the author of seeded change C04i) no host at all: "http://:8080/" and "CONNECT :8080" are
+		// dialled as ":8080", which the operating system takes for the local machine
+		{name: "empty-host", authority: "", port: "8080", localhost: true},
 		// other spellings of the same loopback / unspecified addresses (a dialer treats them all alike)
 		{name: "[0:0:0:0:0:0:0:1]", authority: "[0:0:0:0:0:0:0:1]", localhost: true},
 		{name: "[::0]", authority: "[::0]", localhost: true},
